@@ -103,6 +103,11 @@ fn burst_pattern(start: usize, len: usize, inner: u64) -> Vec<u8> {
     p
 }
 
+thread_local! {
+    /// the replies decoded just before the judged one in a twin group (same reply bits, other senders): part of the witness
+    static AP_BEFORE: std::cell::RefCell<Vec<String>> = const { std::cell::RefCell::new(Vec::new()) };
+}
+
 fn ap_check(r: &mut Report, name: &str, f: &[u8], addr: u32) {
     r.evaluations += 1;
     disturb(f);
@@ -127,7 +132,7 @@ fn ap_check(r: &mut Report, name: &str, f: &[u8], addr: u32) {
         Ok(Ok((c, ap, shown))) => {
             let exp = format!("{addr:06x}");
             if c != addr || ap != Some(addr) || shown.as_deref() != Some(exp.as_str()) {
-                r.violation(&format!("C02:ap:address:{name}"), format!("{name} {} sent by {exp}: crc field {c:06x}, AP {:?}, JSON icao24 {:?}", hexs(f), ap.map(|x| format!("{x:06x}")), shown), json!({"kind":"ap","frame":hexs(f),"addr":addr}));
+                r.violation(&format!("C02:ap:address:{name}"), format!("{name} {} sent by {exp}: crc field {c:06x}, AP {:?}, JSON icao24 {:?}", hexs(f), ap.map(|x| format!("{x:06x}")), shown), json!({"kind":"ap","frame":hexs(f),"addr":addr,"decoded_before":AP_BEFORE.with(|b| b.borrow().clone())}));
             } else {
                 r.class(&format!("ap:{name}"));
                 r.distinct(crate::util::fnv(f));
@@ -153,7 +158,7 @@ fn ap_frames(rng: &mut Rng, addr: u32) -> Vec<(&'static str, Vec<u8>)> {
 }
 
 pub fn run(a: &Args, r: &mut Report) {
-    r.rule = "checksum: every byte value at every position of a zero 7/14-byte frame (drives all 256 table entries at every shift), random frames of both lengths; acceptance: sealed random DF17 frames must be accepted, unsealed ones rejected with the CRC error; corruption: per sampled valid frame all 112 single and 6216 double flips, all bursts of length <= 12 (quick; <= 16 thorough) through the full decoder and all bursts <= 24 bits at checksum level (thorough) or 2e5 random ones (quick); AP: random and edge addresses x DF0/4/5/16/20/21 with random payloads; before one judged frame in four the decoder is offered an input that is truncated, empty or over-long (the verdict must not depend on what was decoded before). distinct = distinct frames whose verdict matched".into();
+    r.rule = "checksum: every byte value at every position of a zero 7/14-byte frame (drives all 256 table entries at every shift), random frames of both lengths; acceptance: sealed random DF17 frames must be accepted, unsealed ones rejected with the CRC error; corruption: per sampled valid frame all 112 single and 6216 double flips, all bursts of length <= 12 (quick; <= 16 thorough) through the full decoder and all bursts <= 24 bits at checksum level (thorough) or 2e5 random ones (quick); AP: random and edge addresses x DF0/4/5/16/20/21 with random payloads, one case in eight a group of 2-6 twin replies (same reply bits, other senders: neighbours, one-bit neighbours, edge addresses) decoded back to back with unrelated replies in between; before one judged frame in four the decoder is offered an input that is truncated, empty or over-long (the verdict must not depend on what was decoded before). distinct = distinct frames whose verdict matched".into();
     if let Some(p) = &a.replay {
         let v: serde_json::Value = serde_json::from_str(&std::fs::read_to_string(p).unwrap()).unwrap();
         let rp = &v["replay"];
@@ -162,7 +167,15 @@ pub fn run(a: &Args, r: &mut Report) {
                 checksum(r, &hex::decode(rp["frame"].as_str().unwrap()).unwrap(), "replay");
             }
             "corrupt" => corrupted(r, &hex::decode(rp["base"].as_str().unwrap()).unwrap(), &hex::decode(rp["pattern"].as_str().unwrap()).unwrap(), "replay"),
-            "ap" => ap_check(r, "replay", &hex::decode(rp["frame"].as_str().unwrap()).unwrap(), rp["addr"].as_u64().unwrap() as u32),
+            "ap" => {
+                // the replies of other senders that were decoded just before (twin group), in order, on this thread
+                for h in rp["decoded_before"].as_array().cloned().unwrap_or_default() {
+                    if let Some(b) = h.as_str().and_then(|h| hex::decode(h).ok()) {
+                        let _ = guarded(|| Message::try_from(b.as_slice()).is_ok());
+                    }
+                }
+                ap_check(r, "replay", &hex::decode(rp["frame"].as_str().unwrap()).unwrap(), rp["addr"].as_u64().unwrap() as u32)
+            }
             _ => {
                 let f = hex::decode(rp["frame"].as_str().unwrap()).unwrap();
                 accept_check(r, &f);
@@ -334,8 +347,53 @@ pub fn run(a: &Args, r: &mut Report) {
         }
     }
     let n = a.budget(300_000, 30_000_000);
-    for _ in 0..n {
+    for i in 0..n {
         let ad = (rng.next() & 0xffffff) as u32;
+        if i % 8 == 7 {
+            // twin replies: several aircraft answer with the same reply bits (same flight level, same squawk, same
+            // register content); the frames then differ in their last three bytes only. Decoded back to back on one
+            // thread, with up to three unrelated replies in between; each must still show its own sender.
+            let mut mb = [0u8; 7];
+            mb.copy_from_slice(&rng.bytes(7));
+            let h = (rng.next() & 0x7ff_ffff) as u32;
+            let k = 2 + rng.below(5) as usize;
+            let mut ads = vec![ad];
+            for j in 1..k {
+                ads.push(match rng.below(4) {
+                    0 => ad ^ (1 << rng.below(24)),
+                    1 => (ad + j as u32) & 0xffffff,
+                    2 => *rng.pick(&edge),
+                    _ => (rng.next() & 0xffffff) as u32,
+                });
+            }
+            for df in [0u8, 4, 5, 16, 20, 21] {
+                AP_BEFORE.with(|b| b.borrow_mut().clear());
+                for (j, a2) in ads.iter().enumerate() {
+                    let (name, f) = match df {
+                        0 => ("DF0", frames::short_ap(0, h, *a2)),
+                        4 => ("DF4", frames::short_ap(4, h, *a2)),
+                        5 => ("DF5", frames::short_ap(5, h, *a2)),
+                        16 => ("DF16", frames::long_ap(16, h, &mb, *a2)),
+                        20 => ("DF20", frames::long_ap(20, h, &mb, *a2)),
+                        _ => ("DF21", frames::long_ap(21, h, &mb, *a2)),
+                    };
+                    ap_check(r, name, &f, *a2);
+                    if j > 0 {
+                        r.class("ap:twin-reply(same reply bits, another sender)");
+                    }
+                    AP_BEFORE.with(|b| b.borrow_mut().push(hexs(&f)));
+                    for _ in 0..rng.below(4) {
+                        let other = (rng.next() & 0xffffff) as u32;
+                        for (_, g) in ap_frames(&mut rng, other).into_iter().skip(3) {
+                            let _ = guarded(|| Message::try_from(g.as_slice()).is_ok());
+                            AP_BEFORE.with(|b| b.borrow_mut().push(hexs(&g)));
+                        }
+                    }
+                }
+            }
+            AP_BEFORE.with(|b| b.borrow_mut().clear());
+            continue;
+        }
         for (name, f) in ap_frames(&mut rng, ad) {
             ap_check(r, name, &f, ad);
         }
